@@ -65,8 +65,9 @@ class C05(Prop):
         return 500 if tier == "quick" else 8000
 
     def gen_case(self, rng, kf=False):
-        rs = ruleset.gen_ruleset(rng, global_refs_ordinary=kf)
-        mem = rng.choice(ruleset.MEMS)
+        nc = rng.chance(1, 5)
+        rs = ruleset.gen_ruleset(rng, global_refs_ordinary=kf, nocase=50 if nc else 0)
+        mem = rng.choice(ruleset.MIXED_MEMS if nc else ruleset.MEMS)
         return {"rs": rs, "mem": mem.hex(), "full": rng.chance(1, 2), "nm": rng.chance(1, 2), "cb": rng.chance(1, 2),
                 "ev_nomatch": rng.chance(1, 2)}
 
@@ -124,21 +125,24 @@ class C05(Prop):
                 ctx.notes.append("reported rule %s:%s is not declared" % (r["ns"], r["name"]))
                 return False
             own = {n: bytes(p) for n, p in decl["strings"]}
+            def same(n, data, lit):
+                return data.lower() == lit.lower() if ruleset.is_nocase(n) else data == lit
             for s in r["strings"]:
                 if s["name"] not in own:
                     ctx.notes.append("rule %s reports string $%s which it does not declare" % (r["name"], s["name"]))
                     return False
-                exp = set(cond.find_all(mem, own[s["name"]]))
+                exp = set(ruleset.occurrences(s["name"], own[s["name"]], mem))
                 got = [m["offset"] for m in s["matches"]]
                 if not set(got) <= exp or (case["full"] and set(got) != exp) or len(got) != len(set(got)):
                     ctx.notes.append("rule %s string $%s: reported offsets %s, occurrences %s" % (r["name"], s["name"], got, sorted(exp)))
                     return False
-                if any(m["length"] != len(own[s["name"]]) or bytes.fromhex(m["data"]) != own[s["name"]][:len(bytes.fromhex(m["data"]))]
+                if any(m["length"] != len(own[s["name"]])
+                       or not same(s["name"], bytes.fromhex(m["data"]), own[s["name"]][:len(bytes.fromhex(m["data"]))])
                        for m in s["matches"]):
                     ctx.notes.append("rule %s string $%s: a match record is not an occurrence of that string" % (r["name"], s["name"]))
                     return False
             if case["full"] and not r.get("_skip"):
-                missing = [n for n, p in own.items() if cond.find_all(mem, p) and n not in [s["name"] for s in r["strings"]]]
+                missing = [n for n, p in own.items() if ruleset.occurrences(n, p, mem) and n not in [s["name"] for s in r["strings"]]]
                 if missing:
                     ctx.notes.append("rule %s does not list its matching strings %s" % (r["name"], missing))
                     return False
